@@ -64,7 +64,7 @@ def rule_QUAD(ctx):
     per = {}
     for name in ('sincosd', 'sincosde', 'sind', 'cosd'):
         f = _fn(ctx, NS + 'Math::' + name)
-        for k in KS:
+        for k in (tuple(range(-8, 13)) if getattr(ctx, 'tier', 'quick') == 'thorough' else KS):
             ev = SymEval(ctx.prog, noinline={NS + 'Math::AngRound'}, max_paths=2000)
             ev.preset_outs = {'q': k}
             try:
